@@ -394,6 +394,31 @@ class UnitBuilder:
                                    repo_lines=[sig_line0, s.line_of(fn.body_close)],
                                    out_lines=[out_start, out_end], contracted=any(b['anchor'] == 'spec' for b in blocks)))
 
+    def emit_shim(self, f, path, opts, blocks, tname, L):
+        """external_body shim of a function whose contract is proved in another unit: real signature, the template's spec text"""
+        s = self.src(f)
+        try:
+            fn = s.find_fn(path)
+        except rsx.ScanError as e:
+            raise BuildError(str(e))
+        sig = fn.signature.rstrip()
+        if opts.get('ret'):
+            msk = rsx.mask(sig)
+            p_open = msk.find('(')
+            p_close = rsx.match_close(msk, p_open)
+            arrow = msk.find('->', p_close)
+            if arrow >= 0:
+                sig = sig[:arrow] + '-> (%s: %s)' % (opts['ret'], sig[arrow + 2:].strip())
+        for a, b in opts.get('sigsub', []):
+            sig = sig.replace(a, b)
+        sig = re.sub(r'\bmut\s+(\w+\s*:)', r'\1', sig)   # `mut x: T` parameters are irrelevant for a body-less shim
+        spec = ''.join(b['text'] for b in blocks if b['anchor'] == 'spec')
+        spec = re.sub(r'^\s*decreases[^\n]*\n', '', spec, flags=re.M)
+        line0 = s.line_of(fn.fn_kw)
+        self.out.add('#[verifier::external_body]\n' + sig + '\n', lambda k: ('repo', f, line0 + k))
+        self.out.add(spec + '{ unimplemented!() }\n', lambda k: ('spec', tname, L + k))
+        self.viewfns.append(dict(path=path, mode='assume', template=tname, line=L))
+
     def emit_viewfn(self, f, path, opts, secs, mode, tname, L):
         """View-level contract of a function, used two ways: mode=prove -> an exec wrapper `name__view` that calls the real
         (verified) function, so Verus checks view-pre ==> real pre and real post ==> view-post; mode=assume -> an external_body
@@ -694,7 +719,11 @@ class UnitBuilder:
                         i += 1
                     if not closed:
                         raise BuildError('%s: fn block not closed' % tname)
-                    self.emit_fn(f, path, opts, blocks, L)
+                    if mode == 'assume':
+                        # the including unit relies on this function's CONTRACT only (proved where the template is the unit's own)
+                        self.emit_shim(f, path, opts, blocks, tname, L)
+                    else:
+                        self.emit_fn(f, path, opts, blocks, L)
                     i += 1
                     continue
                 raise BuildError('%s:%d unknown directive %s' % (tname, L, d))
